@@ -163,6 +163,16 @@ def _(vm, a, ci): return str_len(vm, S(vm, a[0]))
 def _(vm, a, ci): return str_is_empty(vm, S(vm, a[0]))
 
 
+@path('String::truncate')
+def _(vm, a, ci):
+    cur = S(vm, a[0]); n = a[1]
+    s = _bounded(vm, cur)
+    if not isinstance(n, int): raise Unmodelled('String::truncate with a symbolic length')
+    if n >= s.nbytes(): return UNIT
+    if not s.is_boundary(n): raise PanicEdge('panic', f'String::truncate({n}): not a char boundary')
+    vm.ref_set(a[0], s.sub(0, n)); return UNIT
+
+
 @path('String::clear')
 def _(vm, a, ci): vm.ref_set(a[0], const_str(vm, '')); return UNIT
 
